@@ -164,7 +164,10 @@ func runC06F(c *core.Ctx) {
 	for k := uint32(0); len(txs) < nTx; k++ {
 		tx := nw.MakeTx(60000+k, 0)
 		h := *tx.TxHash()
-		if usedBucket[h[0]] {
+		if usedBucket[h[0]] || h[0] >= 8 {
+			// low bucket numbers: loops over the 256 buckets (GetTxRequests in random order, Clean in
+			// ascending order) reach these transactions' buckets within their first iterations, where
+			// the stall plan's per-site share is not used up yet
 			continue
 		}
 		usedBucket[h[0]] = true
@@ -188,6 +191,7 @@ func runC06F(c *core.Ctx) {
 	fc := &core.FClients{D: fd}
 	delivered := make([]int, nTx)
 	total := 0
+	cleans := 0
 	for ph := 0; ph < phases && total < 40; ph++ {
 		now := int64(time.Since(start))
 		calls := make([][]core.FCall, nPeers)
@@ -196,7 +200,17 @@ func runC06F(c *core.Ctx) {
 			for k, n := 0, t.Draw(4); k < n; k++ {
 				i := t.Draw(nTx)
 				total++
-				switch t.Weighted([]int{5, 4, 3}) {
+				switch t.Weighted([]int{5, 4, 3, 2}) {
+				case 3:
+					// the periodic clean-up (cmd/node calls it with a cut-off in the past): with a cut-off
+					// before the run began it must forget nothing, whatever it overlaps with
+					calls[p] = append(calls[p], core.FCall{In: c06In{Op: "clean", Peer: p, Tx: -1, Now: now}, Do: func() interface{} {
+						if err := m.Clean(ctx, start.Add(-time.Hour)); err != nil {
+							panic(err)
+						}
+						return true
+					}})
+					cleans++
 				case 0:
 					calls[p] = append(calls[p], core.FCall{In: c06In{Op: "announce", Peer: p, Tx: i, Now: now}, Do: func() interface{} {
 						got, err := m.AddTxID(ctx, peers[p], ids[i])
@@ -252,6 +266,9 @@ func runC06F(c *core.Ctx) {
 	var hist []porcupine.Operation
 	for _, op := range fc.History {
 		in := op.Input.(c06In)
+		if in.Op == "clean" {
+			continue // forgets nothing in the reference: not an operation on any transaction
+		}
 		if in.Op != "poll-all" {
 			hist = append(hist, op)
 			continue
@@ -295,6 +312,9 @@ func runC06F(c *core.Ctx) {
 		}
 		if delivered[j] > 1 {
 			c.Probe("same-tx-delivered-concurrently")
+		}
+		if cleans > 0 {
+			c.Probe("clean-overlapping-calls")
 		}
 	}
 	m.Stop(ctx)
